@@ -288,67 +288,7 @@ func runC07(c *Check, a *Analysis) {
 		}
 		c.Ob("R-SIZE-BOUND", sc.key(fn, "size >= per-field bound"), fn.Pos(), ok, ifs(!ok, fmt.Sprintf("size computation reserves constant %d (need >= %d) and len() terms %v (need each of %v): the encoder can write past the sized buffer at a varint boundary", total, want, lens, ss.fields)))
 	}
-	c.Rule("R-RESLICE-GUARD", "every length-extending reslice x[:n] of a caller-supplied buffer (parameter or Call.Buffer) is dominated by a test cap(x) >= n (or > n) on the same n", 6)
-	for _, fn := range p.Fns {
-		eachInstr(fn, func(in ssa.Instruction) {
-			sl, ok := in.(*ssa.Slice)
-			if !ok || sl.High == nil || sl.Low != nil {
-				return
-			}
-			if _, isSlice := sl.X.Type().Underlying().(*types.Slice); !isSlice {
-				return
-			}
-			x := p.canon(sl.X)
-			_, isParam := x.(*ssa.Parameter)
-			isBuf := isLoadOf(x, "Call", "Buffer")
-			if !isParam && !isBuf {
-				return
-			}
-			if derivedFrom(p, sl.High, x) {
-				return // shrinking relative to the slice itself
-			}
-			h := sl.High
-			g, _ := p.guardedBy(in, func(cond ssa.Value) (bool, bool) {
-				b, ok := cond.(*ssa.BinOp)
-				if !ok {
-					return false, false
-				}
-				l, r, op := b.X, b.Y, b.Op
-				isCap := func(v ssa.Value) bool {
-					cc, ok := stripConv(v).(*ssa.Call)
-					return ok && calleeName(cc) == "builtin cap" && sameSliceVar(p, cc.Call.Args[0], sl.X)
-				}
-				if isCap(r) {
-					l, r = r, l
-					switch op {
-					case token.LSS:
-						op = token.GTR
-					case token.LEQ:
-						op = token.GEQ
-					case token.GTR:
-						op = token.LSS
-					case token.GEQ:
-						op = token.LEQ
-					}
-				}
-				if !isCap(l) || !sameExpr(p, r, h) {
-					return false, false
-				}
-				switch op {
-				case token.GEQ, token.GTR:
-					return true, true
-				case token.LSS, token.LEQ:
-					return true, false
-				}
-				return false, false
-			})
-			det := ""
-			if !g {
-				det = "reslice " + describe(sl) + " extends a caller-supplied buffer without a dominating capacity test on the same length: the library writes beyond the length it reports / panics"
-			}
-			c.Ob("R-RESLICE-GUARD", sc.key(fn, "x[:n] under cap(x)>=n"), p.InstrPos(in), g, det)
-		})
-	}
+	ruleResliceGuard(c, a, "R-RESLICE-GUARD", 6)
 
 	// ---- (6) encoder/codec interface agreement
 	c.Rule("R-ENCODER-IFACE", "for every Encoder in the package, the dynamic types returned by NewRequest/NewResponse implement the interface that the codec returned by NewCodec type-asserts", 3)
@@ -837,4 +777,72 @@ func ruleHeaderMap(c *Check, a *Analysis, rule string) {
 			}
 		}
 	}
+}
+
+// ruleResliceGuard is shared by C07, C12 and C19.
+func ruleResliceGuard(c *Check, a *Analysis, rule string, floor int) {
+	p := c.P
+	sc := siteCounter{}
+	c.Rule(rule, "every length-extending reslice x[:n] of a caller-supplied buffer (parameter or Call.Buffer) is dominated by a test cap(x) >= n (or > n) on the same n", floor)
+	for _, fn := range p.Fns {
+		eachInstr(fn, func(in ssa.Instruction) {
+			sl, ok := in.(*ssa.Slice)
+			if !ok || sl.High == nil || sl.Low != nil {
+				return
+			}
+			if _, isSlice := sl.X.Type().Underlying().(*types.Slice); !isSlice {
+				return
+			}
+			x := p.canon(sl.X)
+			_, isParam := x.(*ssa.Parameter)
+			isBuf := isLoadOf(x, "Call", "Buffer")
+			if !isParam && !isBuf {
+				return
+			}
+			if derivedFrom(p, sl.High, x) {
+				return // shrinking relative to the slice itself
+			}
+			h := sl.High
+			g, _ := p.guardedBy(in, func(cond ssa.Value) (bool, bool) {
+				b, ok := cond.(*ssa.BinOp)
+				if !ok {
+					return false, false
+				}
+				l, r, op := b.X, b.Y, b.Op
+				isCap := func(v ssa.Value) bool {
+					cc, ok := stripConv(v).(*ssa.Call)
+					return ok && calleeName(cc) == "builtin cap" && sameSliceVar(p, cc.Call.Args[0], sl.X)
+				}
+				if isCap(r) {
+					l, r = r, l
+					switch op {
+					case token.LSS:
+						op = token.GTR
+					case token.LEQ:
+						op = token.GEQ
+					case token.GTR:
+						op = token.LSS
+					case token.GEQ:
+						op = token.LEQ
+					}
+				}
+				if !isCap(l) || !sameExpr(p, r, h) {
+					return false, false
+				}
+				switch op {
+				case token.GEQ, token.GTR:
+					return true, true
+				case token.LSS, token.LEQ:
+					return true, false
+				}
+				return false, false
+			})
+			det := ""
+			if !g {
+				det = "reslice " + describe(sl) + " extends a caller-supplied buffer without a dominating capacity test on the same length: the library writes beyond the length it reports / panics"
+			}
+			c.Ob(rule, sc.key(fn, "x[:n] under cap(x)>=n"), p.InstrPos(in), g, det)
+		})
+	}
+
 }
